@@ -57,7 +57,7 @@ func applyOp(tr trackerT, plan Plan, op HOp, uid int) error {
 	ts := vlib.BaseTSms + int64(uid)
 	seq := uint32(1000 + uid)
 	switch op.Kind {
-	case opLogin:
+	case opLogin, opRelogin:
 		return tr.RemoteLogin(common.RemoteUserLogin{Source: identityEvent(op.K, plan.Pid[op.K], time.Now().UTC()),
 			PID: plan.Pid[op.K], CredUserID: "cred" + strconv.Itoa(userIdx(op.K, plan.Pid[op.K]))})
 	case opRec:
@@ -230,6 +230,11 @@ func smallPrograms() []cprog {
 		// against a busy other session: a cleanup that gives up under contention
 		// shows as session 0 being emitted
 		{Name: "P9 login,login'; (noise;noise;cleanup(all) || rec';ev'x4); rec;ev", Plan: p2, Pre: []HOp{L(0), L(1)}, Threads: [][]HOp{{U, U, CA}, {R(1), E(1), E(1), E(1), E(1)}}, Post: []HOp{R(0), E(0)}},
+		// a parked login expires while its LOGIN record is being processed; the
+		// login line is then delivered again: in every sequential order the
+		// session exists by then (correlated or pending) and everything comes out
+		{Name: "P11 login'; (cleanup(all) || rec';ev'); login' again;ev'", Plan: p2, Pre: []HOp{L(1)}, Threads: [][]HOp{{CA}, {R(1), E(1)}}, Post: []HOp{L(1), E(1)}},
+		{Name: "P12 login,login'; (cleanup(all) || rec';ev' || rec;ev); login,login' again;ev,ev'", Plan: p2, Pre: []HOp{L(0), L(1)}, Threads: [][]HOp{{CA}, {R(1), E(1)}, {R(0), E(0)}}, Post: []HOp{L(0), L(1), E(0), E(1)}},
 		{Name: "P10 rec; (noise;cleanup(all) || login';rec';ev';ev'); login;ev", Plan: p2, Pre: []HOp{R(0)}, Threads: [][]HOp{{U, CA}, {L(1), R(1), E(1), E(1)}}, Post: []HOp{L(0), E(0)}},
 	}
 }
